@@ -105,6 +105,33 @@ fn render(ts: &[T], out: &mut String) {
     }
 }
 
+/// TeX source for a token list *inside the body of the wrapper macro* `\\W#1{..}` that is called
+/// as `\\W{ }`: every space token is written `#1` (so runs of spaces, a space after a control
+/// word, a leading or trailing space — token lists the lexer can never produce — reach the
+/// code under test by substitution), every `#` is written `##`.
+fn render_wrapped(ts: &[T], out: &mut String) {
+    for (i, t) in ts.iter().enumerate() {
+        match t {
+            T::Bg => out.push('{'),
+            T::Eg => out.push('}'),
+            T::Sp => out.push_str("#1"),
+            T::Param => out.push_str("##"),
+            T::Ch(c) => out.push(*c),
+            T::Cs(c) => {
+                out.push('\\');
+                out.push(*c);
+                if c.is_ascii_alphabetic() {
+                    if let Some(T::Ch(n)) = ts.get(i + 1) {
+                        if n.is_ascii_alphabetic() {
+                            out.push(' ');
+                        }
+                    }
+                }
+            }
+        }
+    }
+}
+
 fn tok_of_value(v: token::Value, interner: &token::CsNameInterner) -> T {
     use token::Value::*;
     match v {
@@ -278,6 +305,9 @@ impl SpecCase {
     fn line(&self) -> String {
         format!("s {}", self.sections())
     }
+    fn line_k(&self, kind: &str) -> String {
+        format!("{kind} {}", self.sections())
+    }
     fn parse(rest: &str) -> SpecCase {
         let mut c = SpecCase { pre: vec![], delims: vec![], hash_brace: false, body: vec![], input: vec![] };
         let mut sec = ' ';
@@ -343,6 +373,182 @@ impl C02 {
         }
     }
     fn gen_spec(rng: &mut Rng) -> SpecCase {
+        let mut c = Self::gen_spec_with(rng, false);
+        Self::normalise(&mut c);
+        c
+    }
+    /// A case for the wrapper stream: token lists are *not* normalised, and extra space tokens
+    /// are put where the lexer would never leave one (runs of spaces, after control words, at
+    /// either end, in delimiters, prefix and replacement text). Program kept balanced.
+    fn gen_wrapped(rng: &mut Rng) -> SpecCase {
+        loop {
+            let mut c = Self::gen_spec_with(rng, true);
+            let spray = |ts: &mut Vec<T>, rng: &mut Rng, n: u64| {
+                for _ in 0..n {
+                    // next to an existing space or control word if there is one, else anywhere
+                    let spots: Vec<usize> = (0..ts.len()).filter(|i| matches!(ts[*i], T::Sp | T::Cs(_))).collect();
+                    let k = if !spots.is_empty() && rng.chance(2, 3) { *rng.pick(&spots) + 1 } else { rng.below(ts.len() as u64 + 1) as usize };
+                    ts.insert(k, T::Sp);
+                }
+            };
+            let n = rng.below(4);
+            spray(&mut c.input, rng, n);
+            if rng.chance(1, 4) {
+                spray(&mut c.pre, rng, 1);
+            }
+            if rng.chance(1, 3) {
+                for d in c.delims.iter_mut() {
+                    if !d.is_empty() && rng.chance(1, 2) {
+                        let k = 1 + rng.below(2);
+                        spray(d, rng, k);
+                    }
+                }
+            }
+            if rng.chance(1, 4) {
+                let k = rng.below(c.body.len() as u64 + 1) as usize;
+                c.body.insert(k, "_".into());
+                c.body.insert(k, "_".into());
+            }
+            if balanced(&c.input) {
+                return c;
+            }
+        }
+    }
+    /// KMP stress: a delimiter over the two letters a, b (highly self-overlapping) and an
+    /// argument glued from prefixes, suffixes and factors of that delimiter (near misses),
+    /// followed by the delimiter itself. `shape` picks the parameter text around it.
+    fn kmp_case(delim: &[T], arg: &[T], shape: u64) -> String {
+        let mut c = SpecCase { pre: vec![], delims: vec![delim.to_vec()], hash_brace: false, body: vec!["[".into(), "#1".into(), "]".into()], input: vec![] };
+        c.input.extend(arg.iter());
+        c.input.extend(delim.iter());
+        match shape % 4 {
+            1 => {
+                // a second, undelimited parameter
+                c.delims.push(vec![]);
+                c.body = vec!["#2".into(), ",".into(), "#1".into()];
+                c.input.push(T::Ch('.'));
+            }
+            2 => {
+                // the #{ form: the delimiter gets a brace appended
+                c.hash_brace = true;
+                c.input.extend([T::Bg, T::Ch('.'), T::Eg]);
+            }
+            3 => {
+                // two parameters with the same delimiter
+                c.delims.push(delim.to_vec());
+                c.body = vec!["#2".into(), ",".into(), "#1".into()];
+                c.input.extend(arg.iter().rev());
+                c.input.extend(delim.iter());
+            }
+            _ => {}
+        }
+        c.input.push(T::Ch('b'));
+        c.line()
+    }
+    fn ab_string(mut idx: u64, len: usize) -> Vec<T> {
+        (0..len)
+            .map(|_| {
+                let t = if idx & 1 == 0 { T::Ch('a') } else { T::Ch('b') };
+                idx >>= 1;
+                t
+            })
+            .collect()
+    }
+    fn gen_kmp(thorough: bool, rng: &mut Rng, v: &mut Vec<String>) {
+        // every delimiter over {a,b} up to this length, with every "prefix ++ suffix" argument:
+        // a wrong prefix-table entry v at index i-1 shows on P[..i] ++ P[v..] (false match) or
+        // on P[..i] ++ P[b..] for the true border b (missed match)
+        let exh_len = if thorough { 8 } else { 6 };
+        let mut shape = 0u64;
+        for len in 1..=exh_len {
+            for idx in 0..(1u64 << len) {
+                let d = Self::ab_string(idx, len);
+                for i in 0..=len {
+                    for j in 0..=len {
+                        let mut arg = d[..i].to_vec();
+                        arg.extend(d[j..].iter());
+                        shape += 1;
+                        v.push(Self::kmp_case(&d, &arg, if shape % 5 == 0 { shape / 5 } else { 0 }));
+                    }
+                }
+            }
+        }
+        // every argument over {a,b} up to a length, for every short delimiter (thorough)
+        if thorough {
+            for len in 2..=5 {
+                for idx in 0..(1u64 << len) {
+                    let d = Self::ab_string(idx, len);
+                    for alen in 0..=8 {
+                        for aidx in 0..(1u64 << alen) {
+                            v.push(Self::kmp_case(&d, &Self::ab_string(aidx, alen), 0));
+                        }
+                    }
+                }
+            }
+        }
+        // long structured delimiters (a^k b^m, (ab)^k a, (aab)^k, random) with arguments glued
+        // from several random factors of the delimiter
+        let n = if thorough { 40_000 } else { 5_000 };
+        for _ in 0..n {
+            let d: Vec<T> = match rng.below(5) {
+                0 => {
+                    let k = 1 + rng.below(5) as usize;
+                    let m = 1 + rng.below(4) as usize;
+                    let mut d = vec![T::Ch('a'); k];
+                    d.extend(vec![T::Ch('b'); m]);
+                    d
+                }
+                1 => {
+                    let k = 1 + rng.below(4) as usize;
+                    let mut d = vec![];
+                    for _ in 0..k {
+                        d.extend([T::Ch('a'), T::Ch('b')]);
+                    }
+                    d.push(T::Ch('a'));
+                    d
+                }
+                2 => {
+                    let k = 1 + rng.below(3) as usize;
+                    let mut d = vec![];
+                    for _ in 0..k {
+                        d.extend([T::Ch('a'), T::Ch('a'), T::Ch('b')]);
+                    }
+                    if rng.chance(1, 2) {
+                        d.push(*rng.pick(&[T::Ch('a'), T::Ch('b')]));
+                    }
+                    d
+                }
+                3 => {
+                    // a^k b a^k' ... over three letters, other tokens as letters too
+                    let alpha = [T::Ch('a'), T::Ch('a'), T::Ch('b'), T::Ch('.'), T::Cs(',')];
+                    (0..2 + rng.below(7)).map(|_| *rng.pick(&alpha)).collect()
+                }
+                _ => Self::ab_string(rng.next_u64(), 2 + rng.below(7) as usize),
+            };
+            let mut arg = vec![];
+            if rng.chance(1, 2) {
+                // prefix ++ suffix (the shape that exposes a wrong prefix-table entry), possibly twice
+                for _ in 0..1 + rng.below(2) {
+                    let i = rng.below(d.len() as u64 + 1) as usize;
+                    let j = rng.below(d.len() as u64 + 1) as usize;
+                    arg.extend(d[..i].iter());
+                    arg.extend(d[j..].iter());
+                }
+            } else {
+                for _ in 0..1 + rng.below(4) {
+                    let i = rng.below(d.len() as u64 + 1) as usize;
+                    let j = i + rng.below((d.len() - i) as u64 + 1) as usize;
+                    arg.extend(d[i..j].iter());
+                    if rng.chance(1, 6) {
+                        arg.extend([T::Bg, T::Eg]);
+                    }
+                }
+            }
+            let shape = rng.below(8);
+            v.push(Self::kmp_case(&d, &arg, shape));
+        }
+    }
+    fn gen_spec_with(rng: &mut Rng, spacey: bool) -> SpecCase {
         let nparams = match rng.below(20) {
             0 => 0,
             1..=7 => 1,
@@ -386,8 +592,13 @@ impl C02 {
         for (i, d) in delims.iter().enumerate() {
             let last = i + 1 == delims.len();
             if d.is_empty() && !(last && hash_brace) {
-                if rng.chance(1, 3) {
+                if rng.chance(1, 3) || (spacey && rng.chance(1, 2)) {
                     input.push(T::Sp);
+                    if spacey {
+                        for _ in 0..rng.below(3) {
+                            input.push(T::Sp);
+                        }
+                    }
                 }
                 if rng.chance(1, 2) {
                     input.push(T::Bg);
@@ -434,7 +645,7 @@ impl C02 {
         }
         Self::gen_balanced(rng, 0, &mut input);
         // sometimes damage the call: the non-matching and error paths
-        if rng.chance(1, 8) && !input.is_empty() {
+        if !spacey && rng.chance(1, 8) && !input.is_empty() {
             let k = rng.below(input.len() as u64) as usize;
             match rng.below(3) {
                 0 => {
@@ -444,9 +655,7 @@ impl C02 {
                 _ => input.insert(k, *rng.pick(&[T::Bg, T::Eg, T::Sp, T::Ch('.')])),
             }
         }
-        let mut c = SpecCase { pre, delims, hash_brace, body, input };
-        Self::normalise(&mut c);
-        c
+        SpecCase { pre, delims, hash_brace, body, input }
     }
     /// Make every token list lexable as written (drop unrepresentable space tokens).
     fn normalise(c: &mut SpecCase) {
@@ -651,12 +860,24 @@ impl C02 {
         input: &[T],
         sections: Option<&str>,
         drv: &mut Driver,
+        wrapped: bool,
     ) {
+        if wrapped {
+            // the whole program is the body of a wrapper macro, see `render_wrapped`
+            let mut all = r.def_toks.clone();
+            all.extend(input.iter());
+            if !balanced(&all) || r.def_res != "ok" {
+                out.tag("skipped:wrapper-needs-a-balanced-program");
+                out.nontrivial = false;
+                return;
+            }
+            out.tag("name:via-wrapper-macro");
+        }
         // the macro's name: a control symbol when a space token must follow it
-        let needs_symbol = !representable(&r.def_toks, true) || !representable(input, true);
+        let needs_symbol = !wrapped && (!representable(&r.def_toks, true) || !representable(input, true));
         let name = if needs_symbol { "\\!" } else { "\\a" };
         out.tag(if needs_symbol { "name:control-symbol" } else { "name:control-word" });
-        if !representable(&r.def_toks, !needs_symbol) || !representable(input, !needs_symbol) || r.def_res == "overrun" {
+        if !wrapped && (!representable(&r.def_toks, !needs_symbol) || !representable(input, !needs_symbol) || r.def_res == "overrun") {
             out.tag(if r.def_res == "overrun" { "skipped:definition-overruns-its-text" } else { "skipped:unrepresentable" });
             out.nontrivial = false;
             return;
@@ -671,7 +892,11 @@ impl C02 {
                 }
             }
         }
-        render(&r.def_toks, &mut def_src);
+        if wrapped {
+            render_wrapped(&r.def_toks, &mut def_src);
+        } else {
+            render(&r.def_toks, &mut def_src);
+        }
         let mut call_src = String::from(name);
         if !needs_symbol {
             if let Some(T::Ch(c)) = input.first() {
@@ -680,10 +905,23 @@ impl C02 {
                 }
             }
         }
-        render(input, &mut call_src);
+        if wrapped {
+            render_wrapped(input, &mut call_src);
+        } else {
+            render(input, &mut call_src);
+        }
         // first line: no end-of-line character, so that the source ends exactly with the input
-        let toks_src = format!("\\endlinechar=-1 \n{def_src}\\toks0\\expandafter{{{call_src}}}");
-        let direct_src = format!("\\endlinechar=-1 \n{def_src}{call_src}");
+        let (toks_src, direct_src) = if wrapped {
+            (
+                format!("\\endlinechar=-1 \n\\def\\W#1{{{def_src}\\toks0\\expandafter{{{call_src}}}}}\\W{{ }}"),
+                format!("\\endlinechar=-1 \n\\def\\W#1{{{def_src}{call_src}}}\\W{{ }}"),
+            )
+        } else {
+            (
+                format!("\\endlinechar=-1 \n{def_src}\\toks0\\expandafter{{{call_src}}}"),
+                format!("\\endlinechar=-1 \n{def_src}{call_src}"),
+            )
+        };
 
         let runs = [("toks", true, toks_src), ("direct", false, direct_src)];
         let observed: Vec<Result<Obs, String>> = runs.iter().map(|(_, _, src)| run_tex(src)).collect();
@@ -772,6 +1010,10 @@ impl Property for C02 {
          replacement text over literals, groups, #1..#9, ##; input = per parameter an argument from a grammar of balanced lists (empty, one token, one group, several groups, nested, leading space, \
          delimiter inside braces, proper prefix of the delimiter) followed by the delimiter, then a balanced rest; 1 in 8 inputs damaged (token dropped/inserted, truncated). \
          Exhaustive: 10 fixed macros x every input of length <= 5 (6 thorough) over { } a . _ . \
+         w: the same product, not normalised and with extra space tokens (runs of 2-4 spaces before arguments, after control words, at the ends, inside delimiters/prefix/replacement), \
+         plus every exhaustive input the lexer cannot produce, rendered as the body of a wrapper macro \\W#1{..} called as \\W{ } (space tokens written #1), so that token lists only expansion can produce reach Macro::call and \\def. \
+         KMP: every delimiter over {a,b} of length <= 6 (8 thorough) x every argument P[..i]++P[j..] glued from a prefix and a suffix of the delimiter, every argument over {a,b} of length <= 8 for delimiters of length <= 5 (thorough), \
+         and structured long delimiters (a^k b^m, (ab)^k a, (aab)^k, random, length <= 10) with arguments glued from random factors; four parameter-text shapes around them. \
          r: raw definition texts (exhaustive short ones over # 1 2 { } a, random longer ones, 9/10 parameters) with a short call. \
          Every case: real lexer, real \\def or \\gdef, real expansion, observed twice (token register, handler stream). \
          Non-trivial = the macro has at least one parameter and the call matches (spec verdict available) or the definition is rejected; distinct = distinct case string."
@@ -817,6 +1059,17 @@ impl Property for C02 {
             "s P D a a . N B [ #1 ] I a a a . z",
             "s P D a . a . a N B [ #1 ] I a . a . a . a . a z",
             "s P D a . a b N B [ #1 ] I a . a . a b z",
+            // token lists only expansion can produce (wrapper stream)
+            "w P D N B [ #1 ] I _ _ x y",
+            "w P D D N B [ #1 , #2 ] I _ _ _ x _ _ { y } z",
+            "w P D N B [ #1 ] I \\x _ _ y",
+            "w P \\x _ D . N B [ #1 ] I \\x _ a . _",
+            "w P D _ _ D N B [ #1 , #2 ] I a _ _ _ _ b",
+            "w P D . N B _ _ #1 _ I _ { x } _ . _",
+            // long self-overlapping delimiters with near misses
+            "s P D a a a b b N B [ #1 ] I a a a b a a b b a a a b b b",
+            "s P D a b a b a a N B [ #1 ] I a b a b a b a a b a b a b a a z",
+            "s P D a a b a a b b N B [ #1 ] I a a b a a b a a b a a b b z",
             // nine parameters
             "s P D D D D D D D D D N B #9 #8 #7 #6 #5 #4 #3 #2 #1 I 1 2 3 4 5 6 7 8 9 z",
             "s P D . D , D . D , D . D , D . D , D . N B #9 #1 I 1 . 2 , 3 . 4 , 5 . 6 , 7 . 8 , { 9 } . z",
@@ -878,8 +1131,15 @@ impl Property for C02 {
                             t
                         })
                         .collect();
-                    if !representable(&ts, false) {
-                        continue;
+                    if !representable(&ts, false) || ts.last() == Some(&T::Sp) {
+                        // the lexer cannot produce this list: through the wrapper macro
+                        // (which needs a balanced program)
+                        if balanced(&ts) {
+                            v.push(format!("w {m} I {}", words(&ts)).trim_end().to_string());
+                        }
+                        if !representable(&ts, false) {
+                            continue;
+                        }
                     }
                     v.push(format!("s {m} I {}", words(&ts)).trim_end().to_string());
                 }
@@ -902,11 +1162,19 @@ impl Property for C02 {
                 v.push(format!("r {} I a {{ 1 }} 2 a", words(&ts)).replace("  ", " "));
             }
         }
-        let (n_s, n_r) = if ctx.thorough { (150_000, 30_000) } else { (14_000, 3_000) };
+        let (n_s, n_r, n_w) = if ctx.thorough { (150_000, 30_000, 60_000) } else { (14_000, 3_000, 6_000) };
         let mut r = rng.fork();
         for _ in 0..n_s {
             v.push(Self::gen_spec(&mut r).line());
         }
+        // the call (and the definition) produced by expansion of a wrapper macro
+        let mut r = rng.fork();
+        for _ in 0..n_w {
+            v.push(Self::gen_wrapped(&mut r).line_k("w"));
+        }
+        // KMP stress
+        let mut r = rng.fork();
+        Self::gen_kmp(ctx.thorough, &mut r, &mut v);
         // raw: render a structured case, then damage the definition text
         let mut r = rng.fork();
         for _ in 0..n_r {
@@ -951,9 +1219,12 @@ impl Property for C02 {
         let mut out = CaseOutcome::default();
         let (cmd, rest) = case.split_once(' ').unwrap_or((case, ""));
         match cmd {
-            "s" => {
+            "s" | "w" => {
+                let wrapped = cmd == "w";
                 let mut c = SpecCase::parse(rest);
-                Self::normalise(&mut c);
+                if !wrapped {
+                    Self::normalise(&mut c);
+                }
                 let line = c.line();
                 let reply = drv.ask(&line);
                 let f: Vec<&str> = reply.split('|').map(|s| s.trim()).collect();
@@ -997,7 +1268,25 @@ impl Property for C02 {
                 }
                 out.nontrivial = !c.delims.is_empty() && r.spec.is_some();
                 let sec = c.sections();
-                self.compare(&mut out, &r, &c.input, Some(&sec), drv);
+                if wrapped {
+                    let run = |ts: &[T]| ts.windows(2).any(|w| w[0] == T::Sp && w[1] == T::Sp);
+                    if run(&c.input) {
+                        out.tag("input:run-of-spaces");
+                    }
+                    if c.input.windows(2).any(|w| matches!(w[0], T::Cs(x) if x.is_ascii_alphabetic()) && w[1] == T::Sp) {
+                        out.tag("input:space-after-control-word");
+                    }
+                    if c.input.last() == Some(&T::Sp) {
+                        out.tag("input:trailing-space");
+                    }
+                    if c.delims.iter().any(|d| run(d)) || run(&c.pre) {
+                        out.tag("parameter-text:run-of-spaces");
+                    }
+                }
+                if c.delims.iter().any(|d| d.len() >= 5) {
+                    out.tag("delimiter:length>=5");
+                }
+                self.compare(&mut out, &r, &c.input, Some(&sec), drv, wrapped);
             }
             "r" => {
                 let (d, i) = split_raw(rest);
@@ -1024,7 +1313,7 @@ impl Property for C02 {
                     out.tag(format!("model:{}", model_err_class(&r.call)));
                 }
                 out.nontrivial = r.def_res != "ok" || r.call.starts_with("ok");
-                self.compare(&mut out, &r, &c.input, None, drv);
+                self.compare(&mut out, &r, &c.input, None, drv, false);
             }
             _ => panic!("bad case {case}"),
         }
@@ -1035,40 +1324,40 @@ impl Property for C02 {
         let (cmd, rest) = case.split_once(' ').unwrap_or((case, ""));
         let mut v = vec![];
         match cmd {
-            "s" => {
+            "s" | "w" => {
                 let c = SpecCase::parse(rest);
                 // drop single input tokens, body items, prefix tokens, delimiter tokens
                 if c.input.len() > 1 {
                     let mut h = c.clone();
                     h.input.truncate(c.input.len() / 2);
-                    v.push(h.line());
+                    v.push(h.line_k(cmd));
                 }
                 for i in 0..c.input.len() {
                     let mut h = c.clone();
                     h.input.remove(i);
-                    v.push(h.line());
+                    v.push(h.line_k(cmd));
                 }
                 for i in 0..c.body.len() {
                     let mut h = c.clone();
                     h.body.remove(i);
-                    v.push(h.line());
+                    v.push(h.line_k(cmd));
                 }
                 for i in 0..c.pre.len() {
                     let mut h = c.clone();
                     h.pre.remove(i);
-                    v.push(h.line());
+                    v.push(h.line_k(cmd));
                 }
                 for (k, d) in c.delims.iter().enumerate() {
                     for i in 0..d.len() {
                         let mut h = c.clone();
                         h.delims[k].remove(i);
-                        v.push(h.line());
+                        v.push(h.line_k(cmd));
                     }
                 }
                 if c.hash_brace {
                     let mut h = c.clone();
                     h.hash_brace = false;
-                    v.push(h.line());
+                    v.push(h.line_k(cmd));
                 }
             }
             "r" => {
